@@ -17,6 +17,7 @@ type exprContext struct {
 	result           Result
 	contextPosition  int
 	contextSize      int
+	reverseAxis      bool
 	builtinFunctions map[XmlName]Function
 	ContextSettings
 }
